@@ -25,7 +25,8 @@ def catalogue(prop, seed, tier):
             per_op = collections.Counter()
             for e in cat["entries"]:
                 p = QUICK_KEEP.get(e["family"])
-                if p is None or e.get("expect_error") or trng.random() < p or per_op[(e["family"], e["op"])] < 1:
+                if p is None or e.get("expect_error") or e.get("always") or trng.random() < p \
+                        or per_op[(e["family"], e["op"])] < 1:
                     keep.append(e)
                     per_op[(e["family"], e["op"])] += 1
             cat["entries"] = keep
